@@ -127,7 +127,9 @@ class C14(core.Prop):
     RULE = (
         'statements: queries over 1-3 tables joined (inner/left/right/full/cross) on equality, inequality, compound and '
         'random conditions, where-clauses of random and/or/not predicates over one or several tables (NULLs in the data), '
-        'projections, grouping with aggregates, ordering, sub-queries and tables behind references; x random data of 3-7 '
+        'projections, grouping with aggregates, ordering, sub-queries and tables behind references, set operations and '
+        'sub-queries over the same table and columns with different filters, disjunctions whose arms differ in (hash-colliding) '
+        'literals only; x random data of 3-7 '
         'rows per table. Observed: every generate_table(table, features, predicate) call of the real alchemy parser, the '
         'rows each offered predicate admits (evaluated by sqlite), and the statement result on the full tables, on tables cut '
         'to the offered columns, and on tables cut to the admitted rows. Non-trivial = a statement with >= 2 tables and a '
